@@ -49,6 +49,7 @@ from ipv8.messaging.anonymization.endpoint import TunnelEndpoint
 from ipv8.messaging.anonymization.hidden_services import HiddenTunnelCommunity
 from ipv8.messaging.anonymization.pex import PexCommunity, PexSettings
 from ipv8.messaging.interfaces.endpoint import Endpoint
+from ipv8.messaging.interfaces.statistics_endpoint import StatisticsEndpoint
 from ipv8.peer import Peer
 from ipv8.peerdiscovery.community import DiscoveryCommunity
 from ipv8.requestcache import NumberCache
@@ -124,10 +125,21 @@ class TapEndpoint(Endpoint):
 class TapNode(simnet.Node):
     def add_overlay(self, cls, settings=None, endpoint=None, **extra):  # noqa: ANN001, ANN003, ANN201
         tap = TapEndpoint(self.endpoint)
-        # nodes listed in world.te_nodes get the library's own wrapper on top, as ipv8_service does when any overlay
-        # is configured with anonymize: the overlay then talks to TunnelEndpoint(tap(SimEndpoint))
-        ep = TunnelEndpoint(tap) if self.name in getattr(self.world, "te_nodes", ()) else tap
+        # nodes listed in world.te_nodes get one of the library's own endpoint decorators on top, as ipv8_service does
+        # (TunnelEndpoint when any overlay is configured with anonymize, StatisticsEndpoint with enable_statistics):
+        # the overlay then talks to <Wrapper>(tap(SimEndpoint))
+        wrap = getattr(self.world, "wrap_cls", TunnelEndpoint) if self.name in getattr(self.world, "te_nodes", ()) else None
+        if wrap is StatisticsEndpoint:
+            # this decorator reaches into the wrapped endpoint's listener tables through attribute fallback, so it has
+            # to sit directly on the real endpoint: overlay -> tap -> StatisticsEndpoint -> SimEndpoint
+            stats = StatisticsEndpoint(self.endpoint)
+            tap = TapEndpoint(stats)
+            ep = tap
+        else:
+            ep = wrap(tap) if wrap is not None else tap
         o = super().add_overlay(cls, settings, endpoint=ep, **extra)
+        if wrap is StatisticsEndpoint:
+            stats.enable_community_statistics(o.get_prefix(), True)
         tap.overlay = o
         self.taps[id(o)] = tap
         return o
@@ -142,14 +154,16 @@ class _TapMixin:
 
 
 class TapWorld(_TapMixin, simnet.World):
-    def __init__(self, seed_key, te_nodes=()) -> None:  # noqa: ANN001
+    def __init__(self, seed_key, te_nodes=(), wrap_cls=TunnelEndpoint) -> None:  # noqa: ANN001
         self.te_nodes = set(te_nodes)
+        self.wrap_cls = wrap_cls
         super().__init__(seed_key)
 
 
 class TapTunnelWorld(_TapMixin, TunnelWorld):
-    def __init__(self, seed_key, roles, te_nodes=(), **kw) -> None:  # noqa: ANN001, ANN003
+    def __init__(self, seed_key, roles, te_nodes=(), wrap_cls=TunnelEndpoint, **kw) -> None:  # noqa: ANN001, ANN003
         self.te_nodes = set(te_nodes)
+        self.wrap_cls = wrap_cls
         super().__init__(seed_key, roles, **kw)
 
 
@@ -232,13 +246,12 @@ def instrument(ctx: "Ctx") -> None:
 
     def deliver_later(listener, packet):  # noqa: ANN001, ANN202
         prev = rec.via
-        if listener is ov:
-            rec.via = "own-listener" + ("@TunnelEndpoint" if isinstance(ov.endpoint, TunnelEndpoint) else "")
-        else:
-            # a helper listener registered through a TunnelEndpoint cannot be unregistered either (same root cause as
-            # own-listener@TunnelEndpoint: the wrapper does not forward remove_listener)
-            rec.via = f"{type(listener).__name__}-listener" + ("@TunnelEndpoint" if isinstance(ov.endpoint, TunnelEndpoint)
-                                                               else "")
+        deco = next((c.__name__ for c in (TunnelEndpoint, StatisticsEndpoint)
+                     if isinstance(ov.endpoint, c) or isinstance(getattr(ov.endpoint, "inner", None), c)), None)
+        suffix = f"@{deco}" if deco else ""
+        # (helper listeners registered through a decorator that does not forward remove_listener cannot be
+        # unregistered either: same root cause, same suffix)
+        rec.via = ("own-listener" if listener is ov else f"{type(listener).__name__}-listener") + suffix
         try:
             orig_deliver(listener, packet)
         finally:
@@ -343,7 +356,7 @@ class TrivialCommunity(Community):
 
 
 def _plain_world(scn: "Scenario", seed: int, cls, nut: str, names: str = "ABC", settings=None, te_nodes=()) -> Ctx:  # noqa: ANN001
-    w = TapWorld(("c11", scn.name, seed), te_nodes=te_nodes)
+    w = TapWorld(("c11", scn.name, seed), te_nodes=te_nodes, wrap_cls=getattr(scn, "wrap_cls", TunnelEndpoint))
     ctx = Ctx(w, nut, scn.label)
     for i, n in enumerate(names):
         node = w.add_node(n, (seed + i) % 12)
@@ -360,10 +373,11 @@ class WalkScenario(Scenario):
 
     cls = TrivialCommunity
     te = False
+    wrap_cls = TunnelEndpoint       # which decorator `te` puts between overlay and tap
 
     def __init__(self, nut: str = "A") -> None:
         self.nut = nut
-        self.name = f"{self.cls.__name__}{'@TunnelEndpoint' if self.te else ''}/{nut}"
+        self.name = f"{self.cls.__name__}{'@' + self.wrap_cls.__name__ if self.te else ''}/{nut}"
         self.label = self.cls.__name__
 
     def settings(self):  # noqa: ANN201
@@ -396,6 +410,11 @@ class WalkScenario(Scenario):
 
 class TrivialOnTunnelEndpoint(WalkScenario):
     te = True
+
+
+class TrivialOnStatisticsEndpoint(WalkScenario):
+    te = True
+    wrap_cls = StatisticsEndpoint
 
 
 class PexScenario(WalkScenario):
@@ -496,11 +515,13 @@ class TunnelScenario(Scenario):
 
     cls = TunnelCommunity
     te = False
+    wrap_cls = TunnelEndpoint
 
     def __init__(self, nut: str, hops: int = 2, quick: bool = True) -> None:
         self.nut = nut
         self.hops = hops
-        self.name = f"{self.cls.__name__}{'@TunnelEndpoint' if self.te else ''}/{nut}" + (f"/h{hops}" if hops != 2 else "")
+        self.name = (f"{self.cls.__name__}{'@' + self.wrap_cls.__name__ if self.te else ''}/{nut}"
+                     + (f"/h{hops}" if hops != 2 else ""))
         self.label = self.cls.__name__
         self.quick = quick
         self.path = {1: ["X"], 2: ["R", "X"], 3: ["R", "R2", "X"]}[hops]
@@ -514,6 +535,7 @@ class TunnelScenario(Scenario):
     def build(self, seed: int) -> Ctx:
         roles = self.roles()
         w = TapTunnelWorld(("c11", self.name, seed), roles, te_nodes=tuple(roles) if self.te else (),
+                           wrap_cls=self.wrap_cls,
                            community_cls=self.cls, key_offset=seed % 8)
         ctx = Ctx(w, self.nut, self.label)
         ctx.ov_by = w.ov
@@ -562,6 +584,11 @@ class TunnelScenario(Scenario):
 
 class TunnelOnTunnelEndpoint(TunnelScenario):
     te = True
+
+
+class TunnelOnStatisticsEndpoint(TunnelScenario):
+    te = True
+    wrap_cls = StatisticsEndpoint
 
 
 class HiddenScenario(TunnelScenario):
@@ -775,7 +802,7 @@ class IdentityScenario(Scenario):
 def all_scenarios() -> list[Scenario]:
     s: list[Scenario] = [
         WalkScenario("A"), WalkScenario("B"),
-        TrivialOnTunnelEndpoint("A"),
+        TrivialOnTunnelEndpoint("A"), TrivialOnStatisticsEndpoint("A"),
         DiscoveryScenario("A"), DiscoveryScenario("B"),
         PexScenario("A"),
         DHTScenario("A"), DHTScenario("B"),
@@ -784,6 +811,7 @@ def all_scenarios() -> list[Scenario]:
         TunnelScenario("X", hops=1, quick=False), TunnelScenario("R", hops=3, quick=False),
         TunnelScenario("R2", hops=3, quick=False), TunnelScenario("X", hops=3, quick=False),
         TunnelOnTunnelEndpoint("X"), TunnelOnTunnelEndpoint("O", quick=False), TunnelOnTunnelEndpoint("R", quick=False),
+        TunnelOnStatisticsEndpoint("X"), TunnelOnStatisticsEndpoint("O"), TunnelOnStatisticsEndpoint("R", quick=False),
         HiddenScenario("O"), HiddenScenario("X"), HiddenScenario("R", quick=False),
         ServiceScenario(0), ServiceScenario(1), ServiceScenario(2),
         IdentityScenario("A"), IdentityScenario("B"),
